@@ -14,6 +14,8 @@ pub mod c14;
 pub mod c15;
 #[cfg(not(feature = "inproc"))]
 pub mod c16;
+#[cfg(not(feature = "inproc"))]
+pub mod c18;
 pub mod c19;
 
 macro_rules! table {
@@ -47,6 +49,8 @@ table! {
     "C15" => c15::C15,
     #[cfg(not(feature = "inproc"))]
     "C16" => c16::C16,
+    #[cfg(not(feature = "inproc"))]
+    "C18" => c18::C18,
     "C19" => c19::C19,
 }
 
